@@ -95,6 +95,11 @@ class ClientTrace(Trace):
                     self.events.append("XALREADY")
                     self.task_done_seen.add(t)
                     del self.tasks[t]
+                elif tid == "C?" and (msg.startswith("Not connected") or msg.startswith("Authenticated connection not ready")):
+                    self.events.append("XNC" if msg.startswith("Not connected") else "XNR")
+                    self.task_done_seen.add(t)
+                    del self.tasks[t]
+                    self.next_cid_skip = True
                 elif tid == "F" and isinstance(t.exception(), RuntimeError):
                     self.events.append("XRT")
                     self.task_done_seen.add(t)
@@ -109,7 +114,11 @@ class ClientTrace(Trace):
             self.steps.append((lab, self.projection(), list(self.events)))
             self.events = []
             return
+        n = self.next_cid
         Trace._after(self, handle)
+        if getattr(self, "next_cid_skip", False):
+            self.next_cid = n          # refused by the client before reaching the connection: no call id consumed
+            self.next_cid_skip = False
 
     def hook_transport(self, tr):
         tr.session = self.session
@@ -121,6 +130,23 @@ class ClientTrace(Trace):
         if k == "start":
             if any(tid == "S" and not t.done() for t, tid in self.tasks.items()):
                 return "silent"
+            # sequential use only: a new attempt while a coroutine of the previous connection object has not returned yet
+            # (the client would accept it; what the late coroutine then does to the new attempt is outside the model, see DESIGN.md F13)
+            if any(not t.done() for t, tid in self.tasks.items() if tid not in ("NOOP", "FORCE")):
+                if cli._connection is None:
+                    self.overlap_skipped = getattr(self, "overlap_skipped", 0) + 1
+                    return "silent"
+                # the client holds a connection: the refusal is raised before the first await, probe it synchronously
+                coro = cli.start_connection(on_stop=self._user_on_stop)
+                try:
+                    coro.send(None)
+                except Exception as e:  # noqa
+                    self.events.append("XALREADY" if str(e).startswith("Already connected") else "X" + exc_name(e))
+                else:
+                    self.events.append("X?accepted")
+                finally:
+                    coro.close()
+                return "cstart"
             for t in [t for t in self.tasks if t.done()]:
                 del self.tasks[t]
             t = self.loop.create_task(cli.start_connection(on_stop=self._user_on_stop))
@@ -160,6 +186,12 @@ class ClientTrace(Trace):
             except Exception as e:  # noqa
                 self.events.append("X" + exc_name(e))
             return "ccmd"
+        if k == "req":
+            t = self.loop.create_task(cli.device_info())
+            self.tasks[t] = "C?"
+            self.task_session[t] = self.session
+            self.first_label[t] = "call:9:10:any:any:10240"
+            return None
         if k in ("send", "call", "sub", "unsub"):
             raise ValueError("connection-level action in a client story: " + k)
         if self.conn is None and k in ("cancel",):
